@@ -9,14 +9,17 @@ Model of the second-generation Dutch auction (`x/auctionsV2`), one auction at a 
                       closing distribution for vault-, lend- and externally-initiated auctions
                       (`bid.go:89-233`, `x/liquidationsV2/keeper/liquidate.go:721-813` for the lend transfer,
                       `liquidate.go:605-633` WithdrawAppReserveFundsFn)
-* `iterate`         — `auctions.go:143-238` AuctionIterator for one Dutch auction (no ESM): restart (`:240-285`) or
-                      price update (`:287-335`), errors roll the auction back (`ApplyFuncIfNoError`)
+* `iterate`         — `auctions.go:143-238` AuctionIterator for one Dutch auction, app NOT under emergency shutdown: restart
+                      (`:240-285`) or price update (`:287-335`), errors roll the auction back (`ApplyFuncIfNoError`)
+* `tickIterEsm`     — the same iterator when the app IS under emergency shutdown (`auctions.go:153-182`): inside the window the
+                      ordinary price update; past the end of the window a vault-initiated auction gets `TriggerEsm`
+                      (`:487-533`), an auction of any other initiator is left exactly as it is (no update, no restart)
 * `fill`            — `auctions.go:535-605` LimitOrderBid for one auction: the loop places every matching limit bid with the
                       auction value read BEFORE the loop (the code never re-reads it — DESIGN §7 D7)
 
 State = auction record (or closed), bank balances (association list, default 0), collector net fees, booked external fees,
 app reserve record, burned total.  Ghost fields (`paid recv otherC otherD booked short`) are written but never read by the
-transition functions; the theorems are stated over them and over the bank.  Core Lean only.
+transition functions; the theorems are stated over them and over the bank (`need` likewise).  Core Lean only.
 -/
 namespace Comdex.DutchV2
 open Comdex
@@ -110,6 +113,8 @@ structure St where
   otherD : Int := 0                -- debt denom in the module account that does not belong to this auction (limit deposits, other auctions)
   booked : Int := 0                -- penalty of an external auction left in the module and booked as fee data
   short : Int := 0                 -- reserve draw that was needed but silently not made (liquidate.go:611-617)
+  need : Int := 0                  -- Σ reserve draws ASKED for by closing bids (`debtGettingLeft`, bid.go:62-65), made or not
+  esmOut : Int := 0                -- Σ debt `TriggerEsm` burned / sent to the collector (auctions.go:487-533)
   deriving Inhabited
 
 /-! ### price conversion -/
@@ -192,10 +197,10 @@ def withdrawReserve (s : St) (need : Int) : Except Unit St :=
   | some q =>
     if q - need ≥ 0 then
       match sendPos s.bank .reserve .auction .debt need with
-      | .ok b => .ok { s with bank := b, reserve := some (q - need) }
+      | .ok b => .ok { s with bank := b, reserve := some (q - need), need := s.need + need }
       | .error _ => .error ()
     else
-      .ok { s with reserve := some (q - need), short := s.short + need }
+      .ok { s with reserve := some (q - need), short := s.short + need, need := s.need + need }
 
 def keeperCut (e : Env) : Int := Dec.truncateInt (Dec.mul e.incentive (Dec.ofInt e.fee))
 
@@ -316,6 +321,7 @@ def fill (e : Env) (s : St) (debtTwa : Int) (lbids : List LBid) : Except Unit St
 inductive Op
   | bid (who : Nat) (amt : Int) (debtTwa : Int)
   | tick (now twaC : Int) (actC : Bool) (twaD : Int) (actD : Bool) (lbids : List LBid)
+  | tickEsm (now twaC : Int) (actC : Bool) (twaD : Int) (actD : Bool) (lbids : List LBid)   -- a block while the app's ESM status is on
   | reserve (who : Nat) (amt : Int)                 -- MsgAppReserveFunds
   | limit (who : Nat) (prem : Int) (amt : Int)       -- MsgDepositLimitBid: deposit parked in the module account
   deriving Repr, Inhabited
@@ -337,11 +343,46 @@ def tickIter (e : Env) (s : St) (now twaC : Int) (actC : Bool) (twaD : Int) (act
     | .ok a' => { s with auc := some a' }
     | .error _ => s
 
+/-- `TriggerEsm` (auctions.go:487-533) as far as the tracked accounts go: what was collected so far (`TargetDebt − DebtToken`,
+`Coin.Sub` panics on a negative difference) leaves the module account — up to the penalty to the collector (and its net-fee
+record), the rest burned.  The auction record and the locked vault are NOT deleted and the collateral is NOT moved
+(`CreateNewVault` only writes vault records), so the next block does all of this again. -/
+def triggerEsm (e : Env) (s : St) (a : Auc) : Except Unit St :=
+  let collected := e.target - a.debt
+  if collected < 0 then .error () else
+  let toBurn := if collected > e.fee then collected - e.fee else 0
+  let transfer := if collected > e.fee then e.fee else collected
+  if transfer < 0 then .error () else                               -- sdk.NewCoin
+  match (if toBurn > 0 then burn s.bank .auction .debt toBurn else .ok s.bank) with
+  | .error _ => .error ()
+  | .ok b1 =>
+  match sendPos b1 .auction .collector .debt transfer with
+  | .error _ => .error ()
+  | .ok b2 => .ok { s with bank := b2, burned := s.burned + toBurn, netFees := s.netFees + transfer,
+                           esmOut := s.esmOut + toBurn + transfer }
+
+/-- `AuctionIterator` for one Dutch auction of an app under emergency shutdown (auctions.go:153-182) -/
+def tickIterEsm (e : Env) (s : St) (now twaC : Int) (actC : Bool) (twaD : Int) (actD : Bool) : St :=
+  match s.auc with
+  | none => s
+  | some a =>
+    if now > a.end_ then
+      match e.kind with
+      | .vault => orElse s (triggerEsm e s a)
+      | _ => s                                    -- lend / external: nothing at all happens past the end of the window
+    else
+      match iterate e a now twaC actC twaD actD with   -- `now ≤ end`: `iterate` is the plain price update
+      | .ok a' => { s with auc := some a' }
+      | .error _ => s
+
 def step (e : Env) (s : St) : Op → St
   | .bid who amt dt => orElse s (bidE e s who amt dt)
   | .tick now twaC actC twaD actD lbids =>
     let s1 := tickIter e s now twaC actC twaD actD
     orElse s1 (fill e s1 twaD lbids)
+  | .tickEsm now twaC actC twaD actD lbids =>
+    let s1 := tickIterEsm e s now twaC actC twaD actD
+    orElse s1 (fill e s1 twaD lbids)          -- `LimitOrderBid` does not look at the ESM status
   | .reserve who amt =>
     if amt ≤ 0 then s else
     match send s.bank (.bidder who) .reserve .debt amt with
@@ -366,6 +407,17 @@ def initSt (e : Env) (a : Auc) (b : Bank) (reserve : Option Int) : St :=
 `recv ≤ (paid + bonus)·pDebt·decC / (decD·pColl) + 1` -/
 def monPosted (recv paid bonus : Int) (pDebt : Dec) (decD : Int) (pColl : Dec) (decC : Int) : Bool :=
   decide ((recv - 1) * (decD * pColl) ≤ (paid + bonus) * pDebt * decC)
+
+/-- `price_in_range_slack` on one auction record, whatever the elapsed time: `price ≤ start` and
+`(price + 1)·tau ≥ end·tau − (start − end)` with `end`, `tau` recomputed from the record's start price as the code does
+(true when `end` / `tau` cannot be computed: then no price update can have happened) -/
+def monBand (e : Env) (a : Auc) : Bool :=
+  decide (a.price ≤ a.init) &&
+  (match DutchPrice.endPrice a.init e.discount with
+   | .ok endP => (match DutchPrice.tau a.init endP e.T with
+     | .ok t => DutchPrice.monGeEndSlack a.init endP t a.price
+     | .error _ => true)
+   | .error _ => true)
 
 /-- side condition under which `monPosted` is a theorem of the model: the two half-even roundings cost < 1 unit -/
 def roundingSmall (pColl : Dec) (decC : Int) : Bool :=
